@@ -6,8 +6,11 @@ Tie:   T — codes, option numbers, thresholds `<=`/`<`, Block1 addend, shortcut
            from /repo (Generated/BlockwiseXfer.lean, plus C19's Generated/Blockwise.lean);
        X — two real blockwise.BlockWise instances joined by a scripted relay under synctest: every wire message,
            arrival, delivery, return and cache size compared with the model line by line; the spec's judge
-           (Spec/Blockwise.lean) evaluated on the implementation's history.  Thorough adds end-to-end Post/Get
-           over the in-memory UDP and TCP connections (judge only).
+           (Spec/Blockwise.lean; clauses exact, once, slice, szx, hang, leak, oneway) evaluated on the implementation's
+           history.  Glue level (harness/c04 glue_test.go, conn_test.go, pool_test.go, observe_test.go): real servers and
+           connections against scripted peers — interleaved connections, long transfers, one-way writes with No-Response,
+           early negotiation with every wire encoding, observe x block-wise x request options x ETag placement.
+           Thorough adds end-to-end Post/Get over the in-memory UDP and TCP connections (judge only).
 """
 import glob
 import json
@@ -80,8 +83,19 @@ REQ_OTHER = "11:633034,15:743d31"     # Uri-Path "c04", Uri-Query "t=1"
 RESP_OTHER = "12:2a,14:3c"            # Content-Format 42, Max-Age 60
 
 
-def xfer_lines(tok, code, qlen, qseed, rcode, rlen, rseed, etag="-", tmo=20000, style="do"):
-    l = ["reg A %d %d %d %d - %s" % (tok, code, qlen, qseed, REQ_OTHER),
+NO_RESPONSE = [2, 8, 16, 26]          # RFC 7967: not interested in 2.xx / 4.xx / 5.xx / any response
+
+
+def with_no_response(rng, code, p=0.35):
+    """request options of an upload, now and then with a No-Response option (258): the application's business, the layer's
+    own 2.31 / 4.08 and the transfer as such must not depend on it"""
+    if code in (POST, PUT) and rng.random() < p:
+        return REQ_OTHER + ",258:%02x" % rng.choice(NO_RESPONSE)
+    return REQ_OTHER
+
+
+def xfer_lines(tok, code, qlen, qseed, rcode, rlen, rseed, etag="-", tmo=20000, style="do", qother=REQ_OTHER):
+    l = ["reg A %d %d %d %d - %s" % (tok, code, qlen, qseed, qother),
          "reg B %d %d %d %d %s %s" % (tok, rcode, rlen, rseed, etag, RESP_OTHER)]
     l.append("do %d %d" % (tok, tmo) if style == "do" else "write A %d" % tok)
     return l
@@ -173,13 +187,14 @@ def gen_cases(ctx, driver):
                                 continue
                             tok = rng.randrange(1, 1 << 40)
                             if direction == "up":
-                                head = xfer_lines(tok, rng.choice([POST, PUT]), ln, rng.randrange(200), CHANGED, 3, 1)
+                                qc = rng.choice([POST, PUT])
+                                head = xfer_lines(tok, qc, ln, rng.randrange(200), CHANGED, 3, 1, qother=with_no_response(rng, qc))
                                 nb = steps_bound(sa, ma, sb, mb, ln, 0)
                             elif direction == "down":
                                 head = xfer_lines(tok, GET, 0, 0, CONTENT, ln, rng.randrange(200), etag="e%d" % rng.randrange(10))
                                 nb = steps_bound(sa, ma, sb, mb, 0, ln)
                             else:
-                                head = xfer_lines(tok, POST, ln, rng.randrange(200), CHANGED, ln + 5, rng.randrange(200))
+                                head = xfer_lines(tok, POST, ln, rng.randrange(200), CHANGED, ln + 5, rng.randrange(200), qother=with_no_response(rng, POST))
                                 nb = steps_bound(sa, ma, sb, mb, ln, ln + 5)
                             nb = min(nb, 300 if thorough else 90)
                             add([cfg_line(sa, ma, sb, mb)] + head + ["net deliver"] * nb,
@@ -192,10 +207,13 @@ def gen_cases(ctx, driver):
             mb = rng.choice(maxes(sb))
             for ln in boundary_sizes(buflen(sa, ma)):
                 tok = rng.randrange(1, 1 << 40)
-                head = xfer_lines(tok, rng.choice([POST, PUT]), ln, rng.randrange(200), CHANGED, 0, 0, style="write")
-                # `settle`: nothing in flight any more, no fault happened: the judge's `oneway` clause asks where the body is
-                add([cfg_line(sa, ma, sb, mb)] + head + ["net deliver"] * min(90, 2 * (ln // size(min(sa, sb)) + 4)) + ["settle"],
-                    {"style-write", "oneway-settled", "dir-up", "faultfree"}, nontrivial=ln >= size(sa))
+                # once plainly, once with a No-Response option (the natural companion of the one-way style, RFC 7967)
+                for nr in (None, rng.choice(NO_RESPONSE)):
+                    qo = REQ_OTHER if nr is None else REQ_OTHER + ",258:%02x" % nr
+                    head = xfer_lines(tok, rng.choice([POST, PUT]), ln, rng.randrange(200), CHANGED, 0, 0, style="write", qother=qo)
+                    # `settle`: nothing in flight any more, no fault happened: the judge's `oneway` clause asks where the body is
+                    add([cfg_line(sa, ma, sb, mb)] + head + ["net deliver"] * min(90, 2 * (ln // size(min(sa, sb)) + 4)) + ["settle"],
+                        {"style-write", "oneway-settled", "dir-up", "faultfree"} | ({"no-response"} if nr else set()), nontrivial=ln >= size(sa))
     # ---- 3. fault scripts: exhaustive single (quick) / double (thorough) faults on small configurations
     small = [(0, 80, 0, 80), (1, 96, 0, 80), (0, 80, 2, 128), (7, 1152, 6, 1100)]
     for (sa, ma, sb, mb) in small:
@@ -204,7 +222,7 @@ def gen_cases(ctx, driver):
             for ln in (2 * unit, 2 * unit + 1) if (sa, sb) != (7, 6) else (2 * unit + 1,):
                 tok = 7
                 if direction == "up":
-                    head = xfer_lines(tok, POST, ln, 11, CHANGED, 3, 1)
+                    head = xfer_lines(tok, POST, ln, 11, CHANGED, 3, 1, qother=REQ_OTHER + (",258:1a" if sa == 1 else ""))
                 elif direction == "down":
                     head = xfer_lines(tok, GET, 0, 0, CONTENT, ln, 12, etag="e1")
                 else:
@@ -255,6 +273,30 @@ def gen_cases(ctx, driver):
                     for _ in range(12 * ntok * (max(buflen(sa, ma), buflen(sb, mb)) // u) + 10):
                         script.append("net swap" if r2.random() < 0.3 else "net deliver")
                     add(lines + script + ["net deliver"] * 40, {"concurrent-%d" % ntok, "directed-interleave", "dir-" + direction, "swap"})
+    # ---- 3b'. the ETag is not on every block of one representation: block k of a download arrives with an ETag although
+    #           the first block had none (and the reverse), and with other options of its own; the transfer goes on and what
+    #           is delivered must carry the options of the first block
+    for (sa, ma, sb, mb) in [(0, 80, 0, 80), (1, 96, 0, 80), (2, 128, 1, 96)]:
+        u = size(min(sa, sb))
+        for nblk in (2, 3, 4):
+            ln = nblk * u - 3
+            for k in range(1, nblk):
+                for first, later in (("-", "c%dd%d" % (nblk, k)), ("a%db%d" % (nblk, k), "-")):
+                    tok = 9
+                    head = [cfg_line(sa, ma, sb, mb),
+                            "reg A %d %d 0 0 - %s" % (tok, GET, REQ_OTHER),
+                            "reg B %d %d %d 31 %s 12:2a,14:3c" % (tok, CONTENT, ln, first),
+                            "do %d 20000" % tok]
+                    n0 = 2 + 2 * (k - 1) * max(1, size(sb) // u)
+                    for nd in sorted({2 * k, n0}):
+                        add(head + ["net deliver"] * nd +
+                            [inject_block("A", CONTENT, tok, 2, min(sa, sb), k, ln, later, "12:2a,14:77", 31)] +
+                            ["net deliver"] * (4 * nblk + 8), {"etag-presence", "directed-etag-presence", "dir-down"})
+    # ---- 3b". early negotiation (RFC 7959 section 2.4): a GET with Block2 = (s, 0, 0) / a PUT whose only block is
+    #           (s, 0, 0), for every s — the value 0 = (SZX16, 0, last) is the empty option value on the wire — against
+    #           bodies of 16 .. (own block size - 1) bytes and a little more; the judge's `szx` clause looks at the answer
+    for c in early_negotiation_cases():
+        cases.append(c)
     # ---- 3c. near-collision tokens: concurrent transfers whose tokens differ only in leading / trailing zero bytes, are
     #          prefixes, permutations or zero-extensions of each other; the receiver is fed the blocks of all of them
     #          interleaved (what several clients behind one endpoint, or one client with several calls, produce)
@@ -283,6 +325,26 @@ def inject_block(dst, code, tok, bt, szx, num, ln, etag, other, seed):
     return "inject %s %d %d %s %s %s %s %s %s %d %d %d" % (
         dst, code, tok, blk if bt == 1 else "-", blk if bt == 2 else "-", str(ln) if bt == 1 else "-", str(ln) if bt == 2 else "-",
         etag, other, seed, off, plen)
+
+
+def early_negotiation_cases():
+    out = []
+    for sb, mb in [(2, 128), (4, 320), (6, 1100), (7, 1152), (7, 2048)]:
+        for s_ in range(8):
+            own = size(sb)
+            for ln in sorted({16, 17, 33, own - 1, own, own + 1}):
+                if ln < 16:
+                    continue
+                tok = 40 + s_
+                out.append(Case([cfg_line(0, 80, sb, mb), "reg A %d %d 0 0 - %s" % (tok, GET, REQ_OTHER),
+                                 "reg B %d %d %d %d e7 %s" % (tok, CONTENT, ln, 60 + s_, RESP_OTHER),
+                                 "inject B %d %d - %d/0/0 - - - %s 0 0 0" % (GET, tok, s_, REQ_OTHER), "net drop", "end"],
+                                {"early-negotiation", "early-block2", "dir-down"}, True))
+                out.append(Case([cfg_line(0, 80, sb, mb), "reg A %d %d 8 %d - %s" % (tok, PUT, 70 + s_, REQ_OTHER),
+                                 "reg B %d %d %d %d - %s" % (tok, CHANGED, ln, 60 + s_, RESP_OTHER),
+                                 "inject B %d %d %d/0/0 - 8 - - %s %d 0 8" % (PUT, tok, s_, REQ_OTHER, 70 + s_), "net drop", "end"],
+                                {"early-negotiation", "early-block1", "dir-both"}, True))
+    return out
 
 
 def near_collision_cases(rng, thorough):
@@ -540,6 +602,27 @@ def pool_check(ctx, test_exe, prop, clause, trace_path=None):
     return trace_path
 
 
+def observe_check(ctx, test_exe, prop, clause):
+    """Sub-check for C08 (and anything about observe x block-wise): harness/c04 TestC04Observe — a real udp / tcp client
+    connection registers observations with representation-selecting options (Uri-Query, Accept, Uri-Host); a scripted peer
+    pushes notifications of 2 and 4 blocks and serves every follow-up GET by that request's full option set, with its ETag on
+    all / none / only the pushed / only the fetched blocks.  Reports notifications handed over without the Observe option of
+    their first block, with an Observe value no first block carried, or with a body that is not the supplied one.
+    test_exe = common.build_test(ctx, "c04")."""
+    glue_level(ctx, {"test": test_exe}, "TestC04Observe", "observe", prop=prop, clause=clause)
+
+
+def early_negotiation_check(ctx, test_exe, driver, prop, clause):
+    """Sub-check for C19 ("decoding is defined for every 24-bit value" at its use sites): early block-size negotiation with
+    every wire encoding of the Block1 / Block2 value (empty = value 0, zero-padded, one byte 0x01..0x07) against a real
+    tcp.Server (harness/c04 TestC04TcpServer, `earlyneg` scenarios) and, with the C04 driver, the line histories judged by
+    the `szx` clause of Spec/Blockwise.lean.  test_exe = common.build_test(ctx, "c04"), driver = common.build_driver(ctx, "C04")
+    (may be None: glue level only)."""
+    glue_level(ctx, {"test": test_exe}, "TestC04TcpServer", "earlyneg", prop=prop, clause=clause, only_prefix="earlyneg ")
+    if driver:
+        judged_cases(ctx, test_exe, driver, early_negotiation_cases(), prop, clause, "earlyneg")
+
+
 def etag_discipline_ok(lines):
     """generator precondition (RFC 7959 section 2.4, notes): the representations an application supplies under one token
     carry pairwise distinct ETags (an ETag never comes back for another body), and a representation without ETag is the
@@ -588,16 +671,19 @@ def random_case(rng):
         etag = rng.choice(["-", "a1", "b2c3"])
         tmo = rng.choice([20000, 20000, 500, 100])
         qcode = rng.choice([POST, PUT])
+        qother = with_no_response(rng, qcode, 0.25) if direction != "down" else REQ_OTHER
+        if qother != REQ_OTHER:
+            kinds.add("no-response")
         if direction == "up":
-            lines += xfer_lines(t, qcode, ln, qseed, CHANGED, rng.choice([0, 3]), rseed, etag, tmo)
-            info[t] = ["up", ln, qseed, 0, 0, etag, qcode, RESP_OTHER]
+            lines += xfer_lines(t, qcode, ln, qseed, CHANGED, rng.choice([0, 3]), rseed, etag, tmo, qother=qother)
+            info[t] = ["up", ln, qseed, 0, 0, etag, qcode, RESP_OTHER, qother]
         elif direction == "down":
             lines += xfer_lines(t, GET, 0, 0, CONTENT, ln, rseed, etag, tmo)
-            info[t] = ["down", 0, 0, ln, rseed, etag, GET, RESP_OTHER]
+            info[t] = ["down", 0, 0, ln, rseed, etag, GET, RESP_OTHER, qother]
         else:
             rl = rng.choice([ln, unit + 1, 2 * unit])
-            lines += xfer_lines(t, qcode, ln, qseed, CHANGED, rl, rseed, etag, tmo)
-            info[t] = ["both", ln, qseed, rl, rseed, etag, qcode, RESP_OTHER]
+            lines += xfer_lines(t, qcode, ln, qseed, CHANGED, rl, rseed, etag, tmo, qother=qother)
+            info[t] = ["both", ln, qseed, rl, rseed, etag, qcode, RESP_OTHER, qother]
         kinds.add("dir-" + direction)
     if ntok > 1:
         kinds.add("concurrent-%d" % ntok)
@@ -625,7 +711,7 @@ def random_case(rng):
         elif r < 0.93:
             # stray block for a known token: an aligned slice of the registered body (stale / out of order / final)
             t = rng.choice(toks)
-            d, ql, qs, rl, rs, etag, qcode, rother = info[t]
+            d, ql, qs, rl, rs, etag, qcode, rother, qother = info[t]
             if d == "down" or (d == "both" and rng.random() < 0.5):
                 dst, code, ln, seed, bt = "A", CONTENT if d == "down" else CHANGED, rl, rs, 2
                 szx = rng.choice([sb, min(sa, sb)])
@@ -633,7 +719,7 @@ def random_case(rng):
             else:
                 dst, code, ln, seed, bt = "B", qcode, ql, qs, 1
                 szx = rng.choice([sa, min(sa, sb)])
-                other = REQ_OTHER
+                other = qother
                 etag = "-"
             u = size(szx)
             nblk = max(1, -(-ln // u))
@@ -649,6 +735,13 @@ def random_case(rng):
                 lines.append("reg B %d %d %d %d %s %s" % (t, code, rl, seed, etag, other))
                 info[t][4], info[t][5], info[t][7] = seed, etag, other
                 kinds.add("stray-other-etag")
+            if dst == "A" and num > 0 and not etag.startswith("f") and rng.random() < 0.2:      # (only while the token has had one representation)
+                # the peer does not put the ETag on every block (legal: e.g. the first block is pushed by other code than
+                # the one that answers the follow-up GETs): a later block of the SAME body with an ETag while the first one
+                # had none, or without while the first one had one — and with its own Max-Age.  Not a new representation.
+                etag = fresh_etag() if etag == "-" else "-"
+                other = "12:2a,14:%02x" % rng.randrange(1, 250)
+                kinds.add("stray-etag-presence")
             if rng.random() < 0.08:
                 # a stray block far behind the body, with a number that needs three option bytes (never appended, never final)
                 num, more = rng.choice([4095, 4096, 65535, 65536, 1048575]), 1
@@ -667,7 +760,7 @@ def random_case(rng):
         else:
             # B's representation changes (new body, new ETag)
             t = rng.choice(toks)
-            d, ql, qs, rl, rs, etag, qcode, rother = info[t]
+            d, ql, qs, rl, rs, etag, qcode, rother, qother = info[t]
             if d != "up" and etag != "-":
                 ne = fresh_etag()
                 ns = rng.randrange(200)
@@ -851,6 +944,7 @@ def explore(ctx, art):
     glue_level(ctx, art, "TestC04Discover", "discover")
     glue_level(ctx, art, "TestC04Pool", "pool")
     glue_level(ctx, art, "TestC04Long", "long")
+    glue_level(ctx, art, "TestC04Observe", "observe")
     if ctx.tier == "thorough":
         conn_level(ctx, art)
         with common.Lock():
@@ -906,7 +1000,10 @@ def guard_level(ctx, art, exe=None, realtime=False, tag="guard"):
     ctx.cov[tag + "_scenarios"] = n
 
 
-def glue_level(ctx, art, test, tag, prop="C04", clause="exact"):
+GLUE_FILES = {"TestC04Long": "conn_test.go", "TestC04Pool": "pool_test.go", "TestC04Observe": "observe_test.go"}
+
+
+def glue_level(ctx, art, test, tag, prop="C04", clause="exact", only_prefix=None):
     """the same property on connections the library's own entry points create through options (harness/c04/glue_test.go)"""
     import subprocess
     outp = os.path.join(ctx.work, tag + ".out")
@@ -924,6 +1021,8 @@ def glue_level(ctx, art, test, tag, prop="C04", clause="exact"):
     if p.returncode != 0 or not out:
         ctx.broken.append(("correspondence", "%s failed rc=%d" % (test, p.returncode), p.stdout[-2000:]))
         return
+    if only_prefix:
+        out = [l for l in out if l.split(" ", 1)[-1].startswith(only_prefix)]
     nbad = 0
     for l in out:
         f = l.split()
@@ -936,7 +1035,7 @@ def glue_level(ctx, art, test, tag, prop="C04", clause="exact"):
                 ctx.violations.append(common.Violation(
                     clause, "%s:%s: %s" % (prop, tag, re.sub(r"\d+", "N", res)[:90]),
                     "%s (%s): %s" % (test, scen, res),
-                    {"input": ["go test -run %s (harness/c04/glue_test.go)" % test], "scenario": scen, "test": test, "seed": ctx.seed,
+                    {"input": ["go test -run %s (harness/c04/%s)" % (test, GLUE_FILES.get(test, "glue_test.go"))], "scenario": scen, "test": test, "seed": ctx.seed,
                      "observed": l, "expected": "every application is handed exactly what its own peer supplied, once, or the exchange fails"}))
     ctx.cov[tag + "_scenarios"] = len(out)
     if tag in ("udpdial", "discover") and all("skipped" in l for l in out):
